@@ -85,6 +85,37 @@ func build(c *ev.Case, pats []string, rebuild bool) *sut {
 			}
 			c.Logf("BuildFailureLinks() (intermediate)")
 			c.Add("rebuilds", 1)
+			// queries between the two builds (judged against the patterns inserted
+			// so far): whatever they cache must not survive the next Insert + build
+			if c.Rng.Chance(2, 3) {
+				part := &sut{c: c, t: s.t, pats: pats[:i], dpats: distinctNonEmpty(pats[:i]), isPat: map[string]bool{}}
+				for _, pp := range part.dpats {
+					part.isPat[pp] = true
+					if !isASCII(pp) {
+						part.anyMB = true
+					}
+				}
+				part.hasFFFD = hasRune(pats[:i], utf8.RuneError)
+				for _, pp := range pats[:i] {
+					if pp == "" {
+						part.emptyIn = true
+					}
+				}
+				all := distinctNonEmpty(pats)
+				for k := 0; k < 3; k++ {
+					// texts made of ALL patterns, so that nodes the later patterns hang off are visited
+					text := strings.Join([]string{all[c.Rng.Intn(len(all))], all[c.Rng.Intn(len(all))], all[c.Rng.Intn(len(all))]}, c.Rng.PickStr("", "", "x", "a"))
+					if !part.checkText(text, textOverlap) {
+						return nil
+					}
+				}
+				for _, pp := range part.dpats {
+					if c.Rng.Chance(1, 3) && !part.checkKey(pp, "whole_pattern") {
+						return nil
+					}
+				}
+				c.Add("queries_between_builds", 1)
+			}
 		}
 		if !c.Guard("Insert", func() { s.t.Insert(p) }) {
 			return nil
@@ -568,7 +599,7 @@ func main() {
 	r.Assume("oracle = byte-wise brute force (strings.Index at every offset) over the distinct non-empty inserted patterns; patterns are always valid UTF-8, texts and keys are arbitrary bytes")
 	r.Assume("Insert(\"\") is a no-op by documentation: PrefixSearch(\"\")/FuzzySearch(\"\") may list the empty pattern at most once or not at all")
 	r.Assume("for a key that is not valid UTF-8 only soundness of PrefixSearch is demanded (every entry an inserted pattern starting with the key, each once); completeness is demanded for every valid UTF-8 key")
-	r.Assume("a second BuildFailureLinks after further Inserts (1 case in 8) must give the same contract as a single build")
+	r.Assume("a second BuildFailureLinks after further Inserts (1 case in 8, usually with queries in between) must give the same contract as a single build")
 
 	hv := ev.Opt{HangViolation: true}
 	small := []alphabet{alphaAB, alphaABC}
